@@ -80,6 +80,59 @@ STRENGTHENED = {
     'C19-w4-c19-m2': 'the store is intact (the I/O manager asks it for the wrong pair); reported by C06: interleaved generators over streams with legacy zero ids',
     'C19-w4-c19-m3': 'the store is intact (the async I/O manager skips the store check under the lock); reported by C06 schedule exploration',
     'C20-w4-c20-m2': 'connect() with its own timeout, later calls with none / another one',
+    # ---- round 5 (unusual argument types, rarely used entry points, platform branches, user objects that raise, coincidences between fields)
+    'C01-w5-c01-m1': 'reported by C06: two device objects alive at once whose stream ids coincide',
+    'C01-w5-c01-m2': 'decode=True outputs beyond the model alphabet (byte-order mark, non-characters, surrogates, overlong forms), CPython\'s codec as the oracle of the rule\'s two shapes',
+    'C01-w5-c01-m3': 'ambient variation: bulk_read handing out bytearray / array(\'B\') / a view of a reused buffer',
+    'C02-w5-c02-m2': 'ambient variation: the library\'s loggers at DEBUG (records really formatted)',
+    'C02-w5-c02-m3': 'reported by C15: a bulk_write that accepts nothing (returns 0) and is asked again',
+    'C03-w5-c03-m2': 'transports handing out a view of a reused receive buffer, in the tour replay and the paired sessions',
+    'C03-w5-c03-m3': 'unknown command words taken from the wider protocol family (STLS, FileSync ids)',
+    'C04-w5-c04-m1': 'reported by C06: two device objects alive at once',
+    'C04-w5-c04-m2': 'streaming generators abandoned by the caller (event abandon, clause MonAbandon) and kept open across other operations',
+    'C04-w5-c04-m3': 'reboot(fastboot=True) in the session generator',
+    'C05-w5-c05-m2': 'several keys whose public-key texts are equal',
+    'C05-w5-c05-m3': 'auth_timeout_s=None on an object with a numeric default transport timeout',
+    'C06-w5-c06-m1': 'the cyclic garbage collector run inside bulk_read with abandoned generators in reference cycles; lock requests of the holder itself recorded globally (C06.NoDeadlock)',
+    'C06-w5-c06-m2': 'remote ids that mirror the local ids ((1,2) and (2,1)), completed streams next to a long-lived one',
+    'C06-w5-c06-m3': 'virtual time bound in every adb_shell module that looks at the clock; long pauses between generator steps',
+    'C07-w5-c07-m1': 'sources whose read(n) returns fewer than n bytes before the end',
+    'C07-w5-c07-m2': 'a BytesIO the caller has already read from, with and without a callback',
+    'C07-w5-c07-m3': 'async callbacks in three legitimate forms (async def, object with async __call__, plain function returning an awaitable)',
+    'C08-w5-c08-m1': 'STAT sizes that disagree with what RECV delivers (0, 1, size+1, 2^32-1) with a callback',
+    'C08-w5-c08-m2': 'a transfer that outlasts read_timeout_s as a whole while a kept generator\'s packet arrives in the middle (tick per transport call)',
+    'C08-w5-c08-m3': 'destinations given as pathlib.Path / bytes / file descriptor',
+    'C09-w5-c09-m1': 'DEBUG logging with entry names that are not UTF-8',
+    'C09-w5-c09-m2': 'transports handing out array(\'B\') / memoryview',
+    'C09-w5-c09-m3': 'field values whose bytes spell protocol words (a mode that reads b\'FAIL\')',
+    'C10-w5-c10-m2': 'FAIL reasons with % and {} in them',
+    'C10-w5-c10-m3': 'rejected pulls to destinations that cannot be unlinked (file descriptor) or are path objects',
+    'C11-w5-c11-m2': 'headers announcing payloads of almost 2^31 / 2^32 bytes followed by a trickle / end-of-stream',
+    'C11-w5-c11-m3': 'directory push (the nested mkdir stream) under the stall grid',
+    'C12-w5-c12-m2': 'authenticated connect with auth_timeout_s=None under faults incl. a stalled write that ends only when its timeout expires (no timeout: C12.NoHang)',
+    'C12-w5-c12-m3': 'reboot() in the scenario; a call that returns although its request never reached the device is C12.NeverWrong',
+    'C13-w5-c13-m2': 'available sampled at every transport call of a connect() attempt',
+    'C13-w5-c13-m3': 'connect(rsa_keys=<iterable that raises when iterated>) as a failure kind',
+    'C14-w5-c14-m1': 'schedules with threads started through _thread (unknown to threading.active_count())',
+    'C14-w5-c14-m2': 'a third thread that reconnects the object, in the exhaustive line-level DFS (threads start from scratch)',
+    'C14-w5-c14-m3': 'bytecode-level preemption (f_trace_opcodes): one preemption before every instruction of _open',
+    'C15-w5-c15-m1': 'reported by C07: a named pipe as the source (st_size 0) with a callback',
+    'C15-w5-c15-m2': 'a sendall-style transport whose bulk_write returns None, messages above 64 KiB',
+    'C15-w5-c15-m3': 'BlockingIOError raised in the middle of a short-written buffer',
+    'C16-w5-c16-m1': 'a local destination that cannot be opened',
+    'C16-w5-c16-m2': 'device paths given as pathlib.PurePosixPath (unsupported: both classes must refuse alike)',
+    'C16-w5-c16-m3': 'damaged packets in paired sessions (checksum field zero / off by one / payload bit); C03: wrong checksum fields with intact payloads',
+    'C17-w5-c17-m1': 'a stored 2048-bit key with public exponent 3',
+    'C17-w5-c17-m3': 'key file names with dots in them',
+    'C18-w5-c18-m1': 'a read abandoned by cancelling its task, then data: nothing may be swallowed',
+    'C18-w5-c18-m2': 'host writes in the contract (AdbTransport.HostWrite): connected with a timeout, written without one, more than the socket buffers hold',
+    'C18-w5-c18-m3': 'urgent (out-of-band) data from the peer',
+    'C19-w5-c19-m1': 'payloads equal to command words / empty / NULs (the store treats payloads as opaque)',
+    'C19-w5-c19-m2': 'more than a thousand streams with something pending at once',
+    'C19-w5-c19-m3': 'empty payloads parked',
+    'C20-w5-c20-m1': 'devices selected by port path (list / sysfs string) and by serial, under backend errors',
+    'C20-w5-c20-m2': 'platform.system() reporting Windows / Darwin / Linux',
+    'C20-w5-c20-m3': 'two devices with the same serial number, one transport each, used in turn; clause RaisesOnlyForACause',
     'C03-c03-m1': 'corruption sweep also over a payload whose genuine checksum is 0 (all zero bytes) and over 0xFF bytes',
 }
 
